@@ -14,7 +14,9 @@ TIME: a `time.Duration` reads back cut down to whole units toward zero (`duratio
 TIME(MILLIS) only if the millisecond count fits the INT32 column (`duration_milli_overflow`: 2^31 ms,
 about 24.9 days, comes back negative — the writer truncates silently). Every stored INT32 TIME(MILLIS) leaf
 and every INT64 leaf whose nanosecond count fits `int64` is rebuilt exactly (`time_leaf_exact`,
-`time_leaf_micro_overflow` for the rest). -/
+`time_leaf_micro_overflow` for the rest). All three write paths of a `time.Duration` field store the same leaf
+(`duration_paths_agree`, `duration_read_write_all_paths`); `*_before_fix` are the violations of the typed and
+`Schema.Deconstruct` paths before library commit 21a275d, proved on the old mirror `durWriteBeforeFix`. -/
 namespace PqModel.Props.C01Decimal
 open PqModel.Stats PqModel.LogicalDecimal
 
@@ -172,25 +174,40 @@ theorem time_leaf_micro_overflow :
     IsInt64 9223372036854776 ∧ durToLeaf .micro (durOfLeaf .micro 9223372036854776) ≠ 9223372036854776 := by
   decide
 
-/-! ## the write paths of a `time.Duration` field that do not divide by the unit (violations, as the code is) -/
+/-! ## the three write paths of a `time.Duration` field -/
 
-/-- the reflection path is the one the theorems above are about; on TIME(NANOS) all three paths agree -/
-theorem duration_paths_nano (p : DurPath) (d : Int) : durWrite p .nano d = some d := by
+/-- **All write paths agree**: on every TIME unit and every duration, `GenericWriter[T]` / `GenericBuffer[T]`
+    (typed), `Writer.Write` (deconstruct) and `GenericWriter[any]` (reflect) store the leaf of `writeDuration` -/
+theorem duration_paths_agree (p : DurPath) (u : TUnit) (d : Int) : durWrite p u d = some (durToLeaf u d) := by
+  cases p <;> cases u <;> rfl
+example : durWrite .typed .micro 5000000000 = some 5000000 := by decide
+
+/-- **Read after write on every path**: whatever the writer, a duration reads back cut down to whole units
+    toward zero (TIME(MILLIS): when the millisecond count fits the INT32 column) -/
+theorem duration_read_write_all_paths (p : DurPath) (u : TUnit) (d : Int) (hd : IsInt64 d)
+    (hm : u = .milli → IsInt32 (quoT d 1000000)) :
+    (durWrite p u d).map (durOfLeaf u) = some (truncTo u d) := by
+  rw [duration_paths_agree, Option.map_some, duration_read_write u d hd hm]
+example : (durWrite .deconstruct .milli 5000000000).map (durOfLeaf .milli) = some 5000000000 := by decide
+
+/-! ### regression facts about the code before the repair (library commit 21a275d) -/
+
+/-- before the repair the paths agreed on TIME(NANOS) only -/
+theorem duration_paths_nano_before_fix (p : DurPath) (d : Int) : durWriteBeforeFix p .nano d = some d := by
   cases p <;> rfl
-theorem duration_reflect_path (u : TUnit) (d : Int) : durWrite .reflect u d = some (durToLeaf u d) := rfl
 
-/-- **Violation (typed path, `GenericWriter[T]` / `GenericBuffer[T]`)**: 5 s on a TIME(MICROS) column is
-    stored as 5000000000 (its nanoseconds) and reads back as 1h23m20s; on TIME(MILLIS) it is stored as
-    `int32(5000000000)` = 705032704 and reads back as 195h50m32.704s -/
-theorem duration_typed_violation :
-    (durWrite .typed .micro 5000000000).map (durOfLeaf .micro) = some 5000000000000 ∧
-    (durWrite .typed .milli 5000000000).map (durOfLeaf .milli) = some 705032704000000 ∧
+/-- **Violation before the repair (typed path, `GenericWriter[T]` / `GenericBuffer[T]`)**: 5 s on a
+    TIME(MICROS) column was stored as 5000000000 (its nanoseconds) and read back as 1h23m20s; on TIME(MILLIS)
+    it was stored as `int32(5000000000)` = 705032704 and read back as 195h50m32.704s -/
+theorem duration_typed_violation_before_fix :
+    (durWriteBeforeFix .typed .micro 5000000000).map (durOfLeaf .micro) = some 5000000000000 ∧
+    (durWriteBeforeFix .typed .milli 5000000000).map (durOfLeaf .milli) = some 705032704000000 ∧
     truncTo .micro 5000000000 = 5000000000 ∧ truncTo .milli 5000000000 = 5000000000 := by decide
 
-/-- **Violation (`Writer.Write` / `Schema.Deconstruct`)**: a TIME(MILLIS) field panics, a TIME(MICROS) field
-    stores the nanoseconds -/
-theorem duration_deconstruct_violation :
-    durWrite .deconstruct .milli 5000000000 = none ∧
-    (durWrite .deconstruct .micro 5000000000).map (durOfLeaf .micro) = some 5000000000000 := by decide
+/-- **Violation before the repair (`Writer.Write` / `Schema.Deconstruct`)**: a TIME(MILLIS) field panicked, a
+    TIME(MICROS) field stored the nanoseconds -/
+theorem duration_deconstruct_violation_before_fix :
+    durWriteBeforeFix .deconstruct .milli 5000000000 = none ∧
+    (durWriteBeforeFix .deconstruct .micro 5000000000).map (durOfLeaf .micro) = some 5000000000000 := by decide
 
 end PqModel.Props.C01Decimal
